@@ -97,6 +97,12 @@ func multiFilePackagesPart(run *report.Run, st *e1.Setup, tier, mode string) {
 			run.Inconclusive("multi-file package " + mode + " did not finish within the cap")
 			return
 		}
+		if res.Exit != 0 && strings.Contains(res.Stdout+res.Stderr, "WaitDelay expired before I/O complete") {
+			// grog's one-second (wall clock) grace for draining a finished command's output ran
+			// out: machine load, not the loader
+			run.Count("storm_rounds_not_judged(load: output drain exceeded grog's grace)", 1)
+			continue
+		}
 		if res.Exit != 0 {
 			run.Violation("multi-file-packages-rejected", fmt.Sprintf("grog %s //... exited %d on a well-formed workspace whose packages are defined by several files each: %s", args[0], res.Exit, tailS(res.Stdout+res.Stderr, 300)), replay)
 			return
